@@ -210,6 +210,12 @@ enum TAct {
     A(Act),
     Main(u32, Vec<Act>),
     Test(Name, u32, Vec<Act>),
+    /// `export key = ||` + body (prints its marker first)
+    Fn(Name, u32, Vec<Act>),
+    /// `m.key()`
+    CallM(Name, Name),
+    /// `key()`
+    Call(Name),
 }
 
 #[derive(Clone, Debug, Serialize, Deserialize)]
@@ -325,6 +331,9 @@ fn tact_sexp(t: &TAct) -> String {
         TAct::A(a) => format!("(a {})", act_sexp(a)),
         TAct::Main(mk, b) => format!("(main {} {})", mk, b.iter().map(act_sexp).collect::<Vec<_>>().join(" ")),
         TAct::Test(n, mk, b) => format!("(test {} {} {})", n, mk, b.iter().map(act_sexp).collect::<Vec<_>>().join(" ")),
+        TAct::Fn(k, mk, b) => format!("(fn {} {} {})", k, mk, b.iter().map(act_sexp).collect::<Vec<_>>().join(" ")),
+        TAct::CallM(m, k) => format!("(callm {} {})", m, k),
+        TAct::Call(k) => format!("(call {})", k),
     }
 }
 
@@ -409,6 +418,7 @@ fn act_src(a: &Act, ind: &str, out: &mut Vec<String>) {
                 ("\"supports '.' access\"", "access"),
                 ("\"' not found\"", "idnf"),
                 ("'import id or string'", "type"),
+                ("'callable function'", "call"),
                 ("'Key/Value pair to export'", "exportentry"),
                 ("'xpected'", "compile"),
             ] {
@@ -470,6 +480,9 @@ fn body_src(body: &[TAct]) -> String {
             TAct::A(a) => act_src(a, "", &mut out),
             TAct::Main(mk, b) => fn_src("@main".into(), *mk, b, "", &mut out),
             TAct::Test(n, mk, b) => fn_src(format!("@test {}", name_str(*n)), *mk, b, "", &mut out),
+            TAct::Fn(k, mk, b) => fn_src(format!("export {}", name_str(*k)), *mk, b, "", &mut out),
+            TAct::CallM(m, k) => out.push(format!("{}.{}()", name_str(*m), name_str(*k))),
+            TAct::Call(k) => out.push(format!("{}()", name_str(*k))),
         }
     }
     let mut s = out.join("\n");
@@ -525,6 +538,8 @@ fn classify(full: &str) -> String {
         "idnf".into()
     } else if msg.contains("import id or string") {
         "type".into()
+    } else if msg.contains("callable function") {
+        "call".into()
     } else if msg.contains("Key/Value pair to export") {
         "exportentry".into()
     } else if msg.contains("xpected") {
@@ -680,7 +695,8 @@ fn acts_of<'a>(body: &'a [TAct]) -> Vec<&'a Act> {
     for t in body {
         match t {
             TAct::A(a) => v.push(a),
-            TAct::Main(_, b) | TAct::Test(_, _, b) => v.extend(b.iter()),
+            TAct::Main(_, b) | TAct::Test(_, _, b) | TAct::Fn(_, _, b) => v.extend(b.iter()),
+            TAct::CallM(..) | TAct::Call(_) => {}
         }
     }
     v
@@ -784,6 +800,15 @@ fn mod_infos(sc: &Scenario) -> Option<Vec<ModInfo>> {
                         }
                     }
                 }
+                TAct::Fn(_, mk, body) => {
+                    note(*mk);
+                    for a in body {
+                        if let Act::Print(m) | Act::Show(m, _) | Act::Try(_, m) = a {
+                            note(*m)
+                        }
+                    }
+                }
+                TAct::CallM(..) | TAct::Call(_) => {}
             }
         }
         if mains.len() > 1 {
@@ -796,7 +821,7 @@ fn mod_infos(sc: &Scenario) -> Option<Vec<ModInfo>> {
             match t {
                 TAct::A(Act::Print(m)) | TAct::A(Act::Show(m, _)) | TAct::A(Act::Try(_, m)) => note(*m),
                 TAct::A(_) => {}
-                TAct::Main(mk, body) | TAct::Test(_, mk, body) => {
+                TAct::Main(mk, body) | TAct::Test(_, mk, body) | TAct::Fn(_, mk, body) => {
                     note(*mk);
                     for a in body {
                         if let Act::Print(m) | Act::Show(m, _) | Act::Try(_, m) = a {
@@ -804,6 +829,7 @@ fn mod_infos(sc: &Scenario) -> Option<Vec<ModInfo>> {
                         }
                     }
                 }
+                TAct::CallM(..) | TAct::Call(_) => {}
             }
         }
     }
@@ -977,7 +1003,32 @@ fn direct_laws(sc: &Scenario, outs: &[OpOut], open: &[String], attributed: &mut 
     // that host scripts export themselves
     if sc.ops.iter().all(|o| !o.export_top) {
         let mut allowed: BTreeSet<String> = BTreeSet::new();
+        // cause rule of F-C18-6: keys exported by the body of an exported function of a MODULE end up in
+        // the exports of whoever calls the function — here the host
+        let mut fn_keys: BTreeSet<String> = BTreeSet::new();
+        for f in &sc.files {
+            for t in f.body.iter().flatten() {
+                if let TAct::Fn(_, _, body) = t {
+                    for a in body {
+                        for k in act_binds(a) {
+                            if matches!(a, Act::Export(..) | Act::ExportId(..) | Act::Pat(true, ..)) {
+                                fn_keys.insert(kvh::hex(name_str(k).as_bytes()));
+                            }
+                        }
+                    }
+                }
+            }
+        }
+        let mut host_called = false;
         for (i, o) in sc.ops.iter().enumerate() {
+            if o.body.iter().any(|t| matches!(t, TAct::CallM(..) | TAct::Call(_))) {
+                host_called = true;
+            }
+            for t in &o.body {
+                if let TAct::Fn(k, _, _) = t {
+                    allowed.insert(kvh::hex(name_str(*k).as_bytes()));
+                }
+            }
             for a in acts_of(&o.body) {
                 if let Act::Export(k, _) | Act::ExportId(k, _) = a {
                     allowed.insert(kvh::hex(name_str(*k).as_bytes()));
@@ -991,6 +1042,10 @@ fn direct_laws(sc: &Scenario, outs: &[OpOut], open: &[String], attributed: &mut 
             let ex = &outs.get(i)?.exports;
             for key in top_level_keys(ex) {
                 if !allowed.contains(&key) {
+                    if host_called && fn_keys.contains(&key) && is_open("F-C18-6") {
+                        attributed.push("F-C18-6");
+                        continue;
+                    }
                     return Some(("exports-restored".into(), format!("after operation {} the host exports contain key {} that no host script exported", i, key)));
                 }
             }
@@ -1329,6 +1384,24 @@ impl<'a> Gen<'a> {
         let mut test_names: Vec<Name> = vec![70, 71, 72];
         let mut has_main = false;
         for _ in 0..n {
+            // exported functions and calls (own functions, members of imported modules)
+            if self.rng.chance(1, 14) {
+                let k = *self.rng.pick(&[74, 75]);
+                let mk = self.mk();
+                let body = self.fn_body(mods, targets, fail_pct);
+                b.push(TAct::Fn(k, mk, body));
+                self.bound.push(k);
+                continue;
+            }
+            if self.rng.chance(1, 16) {
+                if !self.mod_bound.is_empty() && self.rng.chance(2, 3) {
+                    let m = *self.rng.pick(&self.mod_bound.clone());
+                    b.push(TAct::CallM(m, *self.rng.pick(&[74, 75, 60])));
+                } else {
+                    b.push(TAct::Call(*self.rng.pick(&[74, 75])));
+                }
+                continue;
+            }
             match self.rng.weighted(&[12, if has_main { 0 } else { 2 }, if test_names.is_empty() { 0 } else { 2 }]) {
                 0 => b.push(TAct::A(self.simple_act(mods, targets, fail_pct, 6))),
                 1 => {
@@ -1355,6 +1428,11 @@ impl<'a> Gen<'a> {
         self.bound.clear();
         self.mod_bound.clear();
         for _ in 0..n {
+            if self.rng.chance(1, 14) && !self.mod_bound.is_empty() {
+                let m = *self.rng.pick(&self.mod_bound.clone());
+                b.push(TAct::CallM(m, *self.rng.pick(&[74, 75, 60])));
+                continue;
+            }
             if allow_defs && self.rng.chance(1, 40) {
                 let mk = self.mk();
                 let body = self.fn_body(mods, targets, 1);
@@ -1654,6 +1732,96 @@ fn wild_family(rng: &mut Rng) -> Scenario {
     body2.push(TAct::A(Act::Print(next())));
     ops.push(Op { dir: vec![], export_top, body: body2 });
     Scenario { run_import_tests: rng.chance(2, 3), host_tests: false, prelude: vec![], files, ops, family: "wildcards".into(), flags: Flags::default() }
+}
+
+/// exported functions called across modules: a library exports functions whose bodies export, read
+/// non-locals, import; they are called by the library itself, by an importing module and by host
+/// scripts (member call `m.f()`, after `from m import f`, through a wildcard import), also values that
+/// are not callable and missing members
+fn functions_family(rng: &mut Rng) -> Scenario {
+    let mut mk = 0u32;
+    let mut next = || {
+        mk += 1;
+        mk
+    };
+    let keys: [Name; 3] = [60, 61, 62];
+    let mut files = vec![];
+    // m2: something to import from inside a function
+    files.push(FileDef { path: MPath { dir: vec![], name: 2, is_dir: false }, body: Some(vec![TAct::A(Act::Print(next())), TAct::A(Act::Export(61, 7))]) });
+    // the library m0
+    let mut b = vec![TAct::A(Act::Print(next()))];
+    if rng.chance(1, 2) {
+        b.push(TAct::A(Act::Export(*rng.pick(&keys), 5)));
+    }
+    let n_fns = 2 + rng.below(2);
+    let fn_keys: Vec<Name> = (0..n_fns).map(|i| 70 + i as Name).collect();
+    for fk in &fn_keys {
+        let mut body = vec![];
+        for _ in 0..(1 + rng.below(2)) {
+            body.push(match rng.below(6) {
+                0 | 1 => Act::Export(*rng.pick(&keys), 10 + rng.below(9) as i64),
+                2 | 3 => Act::Show(next(), *rng.pick(&keys)),
+                4 => Act::Import(vec![Item { name: 2, as_: Some(63), ..Default::default() }]),
+                _ => Act::Assign(*rng.pick(&keys), 90),
+            });
+        }
+        b.push(TAct::Fn(*fk, next(), body));
+        if rng.chance(1, 5) {
+            b.push(TAct::Call(*fk)); // the library calls its own function: then the export lands in the library
+        }
+    }
+    if rng.chance(1, 3) {
+        b.push(TAct::A(Act::Export(*rng.pick(&keys), 6)));
+    }
+    files.push(FileDef { path: MPath { dir: vec![], name: 0, is_dir: false }, body: Some(b) });
+    // m1 imports the library and calls into it
+    let mut b = vec![TAct::A(Act::Print(next())), TAct::A(Act::Import(vec![Item { name: 0, as_: None, ..Default::default() }]))];
+    for _ in 0..(1 + rng.below(3)) {
+        match rng.below(4) {
+            0 | 1 => b.push(TAct::CallM(0, *rng.pick(&fn_keys))),
+            2 => b.push(TAct::A(Act::Show(next(), *rng.pick(&keys)))),
+            _ => b.push(TAct::A(Act::Export(*rng.pick(&keys), 30))),
+        }
+    }
+    files.push(FileDef { path: MPath { dir: vec![], name: 1, is_dir: false }, body: Some(b) });
+    // host
+    let mut ops = vec![];
+    for _ in 0..(2 + rng.below(3)) {
+        let mut body = vec![];
+        let style = rng.below(5);
+        match style {
+            0 => {
+                body.push(TAct::A(Act::Import(vec![Item { name: 1, as_: None, ..Default::default() }])));
+                body.push(TAct::A(Act::Show(next(), 1)));
+            }
+            1 => {
+                let f = *rng.pick(&fn_keys);
+                body.push(TAct::A(Act::From(0.into(), vec![Item { name: f, as_: None, ..Default::default() }])));
+                body.push(TAct::Call(f));
+            }
+            2 => {
+                body.push(TAct::A(Act::FromAll(0.into())));
+                body.push(TAct::Call(*rng.pick(&fn_keys)));
+            }
+            _ => {
+                body.push(TAct::A(Act::Import(vec![Item { name: 0, as_: None, ..Default::default() }])));
+                for _ in 0..(1 + rng.below(3)) {
+                    let k = if rng.chance(1, 8) { *rng.pick(&[60, 79]) } else { *rng.pick(&fn_keys) };
+                    body.push(TAct::CallM(0, k));
+                }
+                if rng.chance(1, 3) {
+                    body.push(TAct::A(Act::Show(next(), 0)));
+                }
+            }
+        }
+        for k in keys.iter() {
+            if rng.chance(1, 3) {
+                body.push(TAct::A(Act::Show(next(), *k)));
+            }
+        }
+        ops.push(Op { dir: vec![], export_top: rng.chance(1, 5), body });
+    }
+    Scenario { run_import_tests: false, host_tests: false, prelude: vec![], files, ops, family: "functions".into(), flags: Flags::default() }
 }
 
 /// a spelling of the module `name` in folder `to` as seen from folder `from`: `..` up to the common
@@ -2125,7 +2293,7 @@ fn main() {
     kvh::quiet_panics();
     let args = Args::parse();
     let mut rep = Report::new("C18", &args);
-    rep.rule = "case = scenario (settings + module files + history of host scripts run by one runtime); generated by seeded graph families (chain, diamond, cycles 1-3, failing top level/@test/@main, file and directory modules), a path-spelling family (one module reached from several folders as '../m', 'd/../m', './m', m; shadowing modules; dotted module names; string import items with/without `as`), a wildcard-import family (overlapping export keys, import orders with repeats, closures created at different points), an exported-assignment family (every assignment-target shape allowed under export: ids, `_`, map patterns with plain/`as`/string-key/ignored entries, single and multi-target, export keyword and export_top_level_ids; observed via importer, wildcard import, host exports() and non-local reads in functions), a random file-system/history generator, a bounded-exhaustive sweep over all 3-module import graphs x failure placements, and the corpus; distinct = distinct request lines; non-trivial = at least one module file, one operation and two module statements".into();
+    rep.rule = "case = scenario (settings + module files + history of host scripts run by one runtime); generated by seeded graph families (chain, diamond, cycles 1-3, failing top level/@test/@main, file and directory modules), a path-spelling family (one module reached from several folders as '../m', 'd/../m', './m', m; shadowing modules; dotted module names; string import items with/without `as`), an exported-functions family (functions that export / read non-locals / import, called by their own module, by importers and by host scripts), a wildcard-import family (overlapping export keys, import orders with repeats, closures created at different points), an exported-assignment family (every assignment-target shape allowed under export: ids, `_`, map patterns with plain/`as`/string-key/ignored entries, single and multi-target, export keyword and export_top_level_ids; observed via importer, wildcard import, host exports() and non-local reads in functions), a random file-system/history generator, a bounded-exhaustive sweep over all 3-module import graphs x failure placements, and the corpus; distinct = distinct request lines; non-trivial = at least one module file, one operation and two module statements".into();
     rep.max_samples = 6;
     let open: Vec<String> = rep.known_open().iter().filter_map(|e| e.get("id").and_then(|x| x.as_str()).map(|s| s.to_string())).collect();
     let drv = if args.driver.is_empty() { None } else { Some(Driver::spawn(&args.driver)) };
@@ -2247,6 +2415,11 @@ fn main() {
 
     // 3. graph families and random scenarios
     let (n_graph, n_random) = if thorough { (12000, 40000) } else { (1200, 3000) };
+    let n_fn = if thorough { 6000 } else { 600 };
+    for _ in 0..n_fn {
+        let sc = functions_family(&mut rng);
+        cx.one(&sc);
+    }
     let n_spell = if thorough { 8000 } else { 800 };
     for _ in 0..n_spell {
         let sc = spellings_family(&mut rng);
